@@ -905,6 +905,50 @@ example : pipeStages [.mul, .add] false = ([.mul], false, true) ∧ pipeStages [
 
 end StageOrder
 
+
+/-! ## `shape_optimization.ExtractDim` -/
+
+/-- ONNX `Slice` on one axis of length `n` with the default step 1 (operator spec: a negative bound gets `n` added,
+then both bounds are clamped to `[0, n]`). -/
+def onnxSliceStep1 {α : Type} (l : List α) (s e : Int) : List α :=
+  let n : Int := l.length
+  let cl (v : Int) : Nat := (max 0 (min (if v < 0 then v + n else v) n)).toNat
+  (l.take (cl e)).drop (cl s)
+
+/-- **`extract_dim_sound`** — for EVERY list (the 4 transposed dims in particular) and every pair of bounds,
+including negative and out-of-range ones and the `INT64_MAX` sentinel: Python's `l[start:end]`, which the rewrite
+uses, selects exactly the elements ONNX `Slice(l, start, end)` (step 1) selects. -/
+theorem extract_dim_sound {α : Type} (l : List α) (s e : Int) : pySlice l s e = onnxSliceStep1 l s e := by
+  unfold pySlice onnxSliceStep1 pyBound
+  have key : ∀ v : Int,
+      (if v < 0 then (if v + (l.length : Int) < 0 then 0 else (v + (l.length : Int)).toNat)
+        else (if v > (l.length : Int) then l.length else v.toNat))
+      = (max 0 (min (if v < 0 then v + (l.length : Int) else v) (l.length : Int))).toNat := by
+    intro v
+    simp only [Int.min_def, Int.max_def]
+    repeat' split
+    all_goals omega
+  simp only [key]
+
+/-- The shape the Slice reads: axis `k` of `Transpose(·, perm=[0,2,1,3])` of a tensor reshaped (with `allowzero=1`,
+so a 0 in the shape is a real 0) to `[d0,d1,d2,d3]` is `[d0,d2,d1,d3][k]` — hence the dim *values* the rewrite picks
+are the values `Shape` returns. -/
+theorem extract_dim_transposed_shape {α : Type} (d0 d1 d2 d3 : α) :
+    ([0, 2, 1, 3] : List Nat).filterMap (fun k => [d0, d1, d2, d3][k]?) = [d0, d2, d1, d3] := by
+  simp
+
+/-- **A step other than 1 selects different elements**: on `[a,b,c,d]`, `0:4:2` is `[a,c]` and `3:-5:-1` is the
+reversal — so the rule may only fire on a Slice without a `steps` input (the pattern demands exactly three inputs;
+`extractOk` says so for every instance). -/
+theorem extract_dim_needs_unit_step (i : ExtractIn) (h : extractOk i = true) : i.nSliceInputs = 3 := by
+  unfold extractOk at h
+  simp only [Bool.and_eq_true, beq_iff_eq] at h
+  exact h.1.1.1.1.1.1
+
+example : pySlice ["dim0", "dim2", "dim1", "dim3"] 1 (-1) = ["dim2", "dim1"]
+    ∧ pySlice ["dim0", "dim2", "dim1", "dim3"] (-5) 9223372036854775807 = ["dim0", "dim2", "dim1", "dim3"]
+    ∧ pySlice ["dim0", "dim2", "dim1", "dim3"] 3 1 = [] := by decide
+
 /-! ## Decisions: facts about the transcribed checks -/
 
 /-- **`softmax_axis`**: the upcast-removal rule fires exactly for `float16 → Cast(float) → Softmax →
